@@ -156,9 +156,13 @@ func vpRunLong(decrypt bool) {
 // 1024, in every buffer arrangement; contents and IV arbitrary.
 func vpRunBig(decrypt bool) {
 	vpSetupNative()
-	totals := []int{1025, 4097, 2049}[:2+vp.Tier()]
+	// 272, 528, 1040 = one block + k*256: chunked keystream generation boundaries
+	totals := []int{1025, 4097, 272, 528, 1040, 2049}[:5+vp.Tier()]
 	T := totals[vp.Choice(len(totals))]
 	a := []int{0, 1, 1024}[vp.Choice(3)]
+	if a >= T {
+		a = 0
+	}
 	vp.SizeBound(T + 8)
 	iv := vp.Bytes(16)
 	msg := vp.Bytes(T)
